@@ -121,7 +121,7 @@ impl<R: Read + Seek> ReadBox<&mut R> for Vp09Box {
 
         let vpcc = {
             let header = BoxHeader::read(reader)?;
-            if header.size > size {
+            if header.size > size || header.size < HEADER_SIZE {
                 return Err(Error::InvalidData(
                     "vp09 box contains a box with a larger size than it",
                 ));
